@@ -131,6 +131,17 @@ func (m *msi) getPendingRequestsToCore(id int) map[msiCommandRequest]*msiCommand
 	return requests
 }
 
+// hasPendingCommandToCore tells whether a snoop command on a line is still to
+// be executed by a core
+func (m *msi) hasPendingCommandToCore(id int, alignedAddr comp.AlignedAddress) bool {
+	for req := range m.commands {
+		if req.id == id && req.alignedAddr == alignedAddr {
+			return true
+		}
+	}
+	return false
+}
+
 // l1RLock is a lock for read
 // Workflows:
 // Pre-actions: pendings
@@ -138,6 +149,11 @@ func (m *msi) getPendingRequestsToCore(id int) map[msiCommandRequest]*msiCommand
 // Post-action: msiCommandInfo callback
 func (m *msi) l1RLock(id int, addrs []int32) (msiResponse, func(), *comp.Sem) {
 	alignedAddr := getL1AlignedMemoryAddress(addrs)
+	if m.hasPendingCommandToCore(id, alignedAddr) {
+		// A snoop command on this line is still to be executed by this core (its
+		// requester may have been flushed meanwhile): wait for it
+		return msiResponse{wait: true}, noop, nil
+	}
 	state := m.getL1State(id, addrs)
 	switch state {
 	case invalid:
@@ -196,6 +212,11 @@ func (m *msi) l1ReadRequest(id int, alignedAddr comp.AlignedAddress) []*msiComma
 // Post-action: msiCommandInfo callback
 func (m *msi) l1Lock(id int, addrs []int32) (msiResponse, func(), *comp.Sem) {
 	alignedAddr := getL1AlignedMemoryAddress(addrs)
+	if m.hasPendingCommandToCore(id, alignedAddr) {
+		// A snoop command on this line is still to be executed by this core (its
+		// requester may have been flushed meanwhile): wait for it
+		return msiResponse{wait: true}, noop, nil
+	}
 	state := m.getL1State(id, addrs)
 	switch state {
 	case invalid:
